@@ -18,14 +18,38 @@ def ivEq (a b : Iv α) : Bool := Tm.close9 a.s b.s && Tm.close9 a.e b.e && a.l =
 /-- `Point.__eq__` -/
 def ptEq (a b : Pt α) : Bool := Tm.close9a a.t b.t && a.l == b.l
 
-/-- `self._entries.pop(self._entries.index(entry))` -/
-def deleteIv : List (Iv α) → Iv α → Except Err (List (Iv α))
-  | [], _ => .error .ValueError
-  | e :: rest, x => if ivEq e x then .ok rest else (deleteIv rest x).map (e :: ·)
+/-- `tuple(existingEntry) == tuple(entry)`: exact on every field -/
+def ivSame (a b : Iv α) : Bool := a.s == b.s && a.e == b.e && a.l == b.l
+def ptSame (a b : Pt α) : Bool := a.t == b.t && a.l == b.l
 
-def deletePt : List (Pt α) → Pt α → Except Err (List (Pt α))
+/-- the first loop of `deleteEntry` (after the repair in /repo): remove the first exactly matching entry -/
+def eraseSameIv : List (Iv α) → Iv α → Option (List (Iv α))
+  | [], _ => none
+  | e :: rest, x => if ivSame e x then some rest else (eraseSameIv rest x).map (e :: ·)
+
+def eraseSamePt : List (Pt α) → Pt α → Option (List (Pt α))
+  | [], _ => none
+  | e :: rest, x => if ptSame e x then some rest else (eraseSamePt rest x).map (e :: ·)
+
+/-- the fallback `self._entries.pop(self._entries.index(entry))`: first entry equal under the tolerant `__eq__` -/
+def deleteIvTol : List (Iv α) → Iv α → Except Err (List (Iv α))
   | [], _ => .error .ValueError
-  | e :: rest, x => if ptEq e x then .ok rest else (deletePt rest x).map (e :: ·)
+  | e :: rest, x => if ivEq e x then .ok rest else (deleteIvTol rest x).map (e :: ·)
+
+def deletePtTol : List (Pt α) → Pt α → Except Err (List (Pt α))
+  | [], _ => .error .ValueError
+  | e :: rest, x => if ptEq e x then .ok rest else (deletePtTol rest x).map (e :: ·)
+
+/-- `deleteEntry`'s search: the exactly matching entry if there is one, else the first tolerant match -/
+def deleteIv (es : List (Iv α)) (x : Iv α) : Except Err (List (Iv α)) :=
+  match eraseSameIv es x with
+  | some r => .ok r
+  | none => deleteIvTol es x
+
+def deletePt (ps : List (Pt α)) (x : Pt α) : Except Err (List (Pt α)) :=
+  match eraseSamePt ps x with
+  | some r => .ok r
+  | none => deletePtTol ps x
 
 def deleteIvs (es : List (Iv α)) (ms : List (Iv α)) : Except Err (List (Iv α)) :=
   ms.foldlM deleteIv es
